@@ -58,11 +58,11 @@ theorem drain_succ (n : Nat) :
 
 theorem emitConstraint_ok (lhs : Exp α) (cmp : Cmp) (rhs : Exp α) (name : String) (s : St α) (r : Unit × St α) :
     emitConstraint lhs cmp rhs name s = .ok r ↔
-      ∃ fl v s1, flattenF flattenFuel (.bin .sub lhs rhs) = some fl ∧
-        linExp (simplify fl) (cmpForReq cmp) s = .ok (v, s1) ∧
+      ∃ e v s1, normalizeExp (.bin .sub lhs rhs) = some e ∧
+        linExp e (cmpForReq cmp) s = .ok (v, s1) ∧
         r = ((), { s1 with rows := s1.rows ++ [{ name := name, lhs := v.vars, rhs := Arith.neg v.rhs, cmp := cmp }] }) := by
   unfold emitConstraint
-  cases hf : flattenF flattenFuel (.bin .sub lhs rhs) with
+  cases hf : normalizeExp (.bin .sub lhs rhs) with
   | none => simp [fail_ok]
   | some fl =>
     simp only [bind_ok, modify_ok]
@@ -71,11 +71,18 @@ theorem emitConstraint_ok (lhs : Exp α) (cmp : Cmp) (rhs : Exp α) (name : Stri
     · rintro ⟨fl', v, s1, h0, h1, h2⟩; cases h0; exact ⟨v, s1, h1, h2⟩
 
 theorem simplifyFlat_ok (e : Exp α) (s : St α) (r : Exp α × St α) :
-    simplifyFlat e s = .ok r ↔ ∃ fl, flattenF flattenFuel e = some fl ∧ r = (simplify fl, s) := by
+    simplifyFlat e s = .ok r ↔ ∃ e', normalizeExp e = some e' ∧ r = (e', s) := by
   unfold simplifyFlat
-  cases hf : flattenF flattenFuel e with
+  cases hf : normalizeExp e with
   | none => simp [fail_ok]
   | some fl => simp [pure_ok]
+
+theorem normalizeExp_some {e e' : Exp α} (h : normalizeExp e = some e') :
+    ∃ fl, flattenF flattenFuel (simplify e) = some fl ∧ e' = simplify fl := by
+  unfold normalizeExp at h
+  cases hf : flattenF flattenFuel (simplify e) with
+  | none => simp [hf] at h
+  | some fl => exact ⟨fl, rfl, by simpa [hf, eq_comm] using h⟩
 
 /-- the linear model assembled from the objective context and the final state. -/
 def assemble (m : Model α) (obj : Ctx α) (s : St α) : LinModel α :=
@@ -156,6 +163,21 @@ theorem cmpK_cancel (c : Cmp) (a b k : K) : cmpK c (a - b - k) (-k) = cmpK c a b
   cases c <;> simp [cmpK]
   all_goals (constructor <;> intro h <;> linarith)
 
+/-- `normalize` (simplify → flatten → simplify) stays in the arithmetic fragment … -/
+theorem AG_normalize {S : String → Prop} {e e' : Exp (Ext K)} (h : AG S e) (hn : normalizeExp e = some e') :
+    AG S e' := by
+  obtain ⟨fl, hf, rfl⟩ := normalizeExp_some hn
+  exact AG_simplify _ (AG_flatten (AG_simplify _ h) hf)
+
+/-- … and preserves defined values there. -/
+theorem normalize_eval_arith (hfl : FlattenSound K) (hsi : SimplifySoundArith K) {e e' : Exp (Ext K)}
+    (ha : arithOnly e = true) (hn : normalizeExp e = some e') {ρ : String → K} {v : K}
+    (hv : eval ρ e = some v) : eval ρ e' = some v := by
+  obtain ⟨fl, hf, rfl⟩ := normalizeExp_some hn
+  have h1 : AG (fun _ => True) (simplify e) := AG_simplify _ ⟨ha, fun _ _ => trivial⟩
+  have h2 : AG (fun _ => True) fl := AG_flatten h1 hf
+  exact hsi fl ρ v h2.1 (by rw [hfl _ _ _ ρ hf]; exact hsi e ρ v ha hv)
+
 theorem emit_arith (hfl : FlattenSound K) (hsi : SimplifySoundArith K) {S : String → Prop}
     {lhs rhs : Exp (Ext K)} {cmp : Cmp} {name : String} {s : St (Ext K)} {r : Unit × St (Ext K)}
     (hl : AG S lhs) (hr : AG S rhs) (h : emitConstraint lhs cmp rhs name s = .ok r) :
@@ -163,17 +185,15 @@ theorem emit_arith (hfl : FlattenSound K) (hsi : SimplifySoundArith K) {S : Stri
       (∀ x ∈ row.lhs.map (·.1), S x) ∧
       ∀ (ρ : String → K) (a b : K), eval ρ lhs = some a → eval ρ rhs = some b →
         RowOK row ∧ (rowTrue ρ row ↔ cmpK cmp a b = true) := by
-  obtain ⟨fl, v, s1, hf, hlin, rfl⟩ := (emitConstraint_ok _ _ _ _ _ _).mp h
+  obtain ⟨en, v, s1, hf, hlin, rfl⟩ := (emitConstraint_ok _ _ _ _ _ _).mp h
   have hsub : AG S (.bin .sub lhs rhs : Exp (Ext K)) := AG_bin.mpr ⟨rfl, hl, hr⟩
-  have hfl' := AG_flatten hsub hf
-  have hsimp := AG_simplify _ hfl'
+  have hsimp := AG_normalize hsub hf
   have R := lin_arith _ hsimp.1 _ _ _ _ hlin
   refine ⟨_, by rw [R.state], rfl, rfl, ?_, ?_⟩
   · intro x hx; exact hsimp.2 x (R.names x hx)
   · intro ρ a b ha hb
     have e1 : eval ρ (.bin .sub lhs rhs) = some (a - b) := by simp [eval_bin, ha, hb, binVal]
-    have e2 : eval ρ fl = some (a - b) := by rw [hfl _ _ _ ρ hf, e1]
-    have e3 := hsi fl ρ _ hfl'.1 e2
+    have e3 := normalize_eval_arith hfl hsi hsub.1 hf e1
     obtain ⟨ok, val⟩ := R.value ρ _ e3
     obtain ⟨k, hk⟩ := ok.rhs
     refine ⟨⟨ok.fin, ⟨-k, by simp [hk]⟩, ok.nodup⟩, ?_⟩
@@ -435,15 +455,13 @@ theorem process_arith (hfl : FlattenSound K) (hsi : SimplifySoundArith K) {S : S
   obtain ⟨lhs', s1, ⟨fl1, hf1, h1⟩, rhs', s2, ⟨fl2, hf2, h2⟩, h3⟩ := h
   cases h1; cases h2
   simp only [hc.notAssert, Bool.false_eq_true, if_false] at h3
-  have hl' : AG S (simplify fl1) := AG_simplify _ (AG_flatten hc.lhs hf1)
-  have hr' : AG S (simplify fl2) := AG_simplify _ (AG_flatten hc.rhs hf2)
+  have hl' : AG S lhs' := AG_normalize hc.lhs hf1
+  have hr' : AG S rhs' := AG_normalize hc.rhs hf2
   obtain ⟨new, hn1, hn2, hn3⟩ := dispatch_arith hfl hsi hl' hr' h3
   refine ⟨new, hn1, hn2, ?_⟩
   intro ρ a b ha hb
-  have ea : eval ρ (simplify fl1) = some a :=
-    hsi _ ρ a (AG_flatten hc.lhs hf1).1 (by rw [hfl _ _ _ ρ hf1, ha])
-  have eb : eval ρ (simplify fl2) = some b :=
-    hsi _ ρ b (AG_flatten hc.rhs hf2).1 (by rw [hfl _ _ _ ρ hf2, hb])
+  have ea : eval ρ lhs' = some a := normalize_eval_arith hfl hsi hc.lhs.1 hf1 ha
+  have eb : eval ρ rhs' = some b := normalize_eval_arith hfl hsi hc.rhs.1 hf2 hb
   rw [constraintHolds_arith hc.notAssert ha hb]
   exact hn3 ρ a b ea eb
 
